@@ -128,9 +128,9 @@ func init() {
 				return
 			}
 			x.Release()
-			x.Data["ops"] = ops
+			x.Put("ops", ops)
 			d := newDone(x)
-			x.Data["d"] = d
+			x.Put("d", d)
 			dom := func(s byte) string {
 				if s == 'h' {
 					return "host"
@@ -149,12 +149,12 @@ func init() {
 					err := op(side, id)
 					dt := x.Now() - t0
 					x.Obs("%s err=%v", name, err != nil)
-					x.Data["ret:"+name] = dt
+					x.Put("ret:"+name, dt)
 					if err != nil && strings.HasPrefix(err.Error(), "MISROUTE") {
 						x.Fail("S", "%s: %v", name, err)
 					}
 					if must && err != nil {
-						x.Data["musterr:"+name] = fmt.Sprintf("%v (after %v)", err, dt)
+						x.Put("musterr:"+name, fmt.Sprintf("%v (after %v)", err, dt))
 					}
 				}
 				if blocking {
